@@ -184,7 +184,10 @@ class _EpydocReader(StandaloneReader):
         level: int = error['level']
         is_fatal = level >= Reporter.ERROR_LEVEL
 
+        # docutils reports 1-based line numbers, ParseError expects the first line to be 0.
         linenum: Optional[int] = error.get('line')
+        if linenum:
+            linenum -= 1
 
         msg = ''.join(c.astext() for c in error)
 
